@@ -15,6 +15,7 @@ import (
 	colmetricpb "go.opentelemetry.io/proto/otlp/collector/metrics/v1"
 	coltracepb "go.opentelemetry.io/proto/otlp/collector/trace/v1"
 	"google.golang.org/grpc"
+	"google.golang.org/grpc/credentials/insecure"
 	_ "google.golang.org/grpc/encoding/gzip"
 	"google.golang.org/grpc/metadata"
 	"google.golang.org/grpc/stats"
@@ -212,12 +213,15 @@ func oneRecord() []sdklog.Record {
 // exportOnce builds the exporter of (fam, proto) with opts under the process
 // environment, exports one item, shuts it down. rawComp >= 0 passes an
 // out-of-range Compression enum value (HTTP exporters).
-func exportOnce(fam, proto string, opts []Opt, rawComp int) (newErr, expErr error) {
+func exportOnce(fam, proto string, opts []Opt, rawComp int, retry bool) (newErr, expErr error) {
 	ctx, cancel := context.WithTimeout(ctxBg, 40*time.Second)
 	defer cancel()
 	switch fam + "/" + proto {
 	case "trace/http":
-		os := []otlptracehttp.Option{otlptracehttp.WithRetry(otlptracehttp.RetryConfig{Enabled: false})}
+		os := []otlptracehttp.Option{}
+		if !retry {
+			os = append(os, otlptracehttp.WithRetry(otlptracehttp.RetryConfig{Enabled: false}))
+		}
 		for _, o := range opts {
 			switch o.K {
 			case "endpoint":
@@ -250,7 +254,10 @@ func exportOnce(fam, proto string, opts []Opt, rawComp int) (newErr, expErr erro
 		expErr = e.ExportSpans(ctx, tracetest.SpanStubs{{Name: "x"}}.Snapshots())
 		e.Shutdown(ctx)
 	case "trace/grpc":
-		os := []otlptracegrpc.Option{otlptracegrpc.WithRetry(otlptracegrpc.RetryConfig{Enabled: false})}
+		os := []otlptracegrpc.Option{}
+		if !retry {
+			os = append(os, otlptracegrpc.WithRetry(otlptracegrpc.RetryConfig{Enabled: false}))
+		}
 		for _, o := range opts {
 			switch o.K {
 			case "endpoint":
@@ -265,6 +272,13 @@ func exportOnce(fam, proto string, opts []Opt, rawComp int) (newErr, expErr erro
 				os = append(os, otlptracegrpc.WithTimeout(time.Duration(o.D)))
 			case "insecure":
 				os = append(os, otlptracegrpc.WithInsecure())
+			case "grpcconn":
+				conn, err := grpc.NewClient(o.S, grpc.WithTransportCredentials(insecure.NewCredentials()))
+				if err != nil {
+					return err, nil
+				}
+				defer conn.Close()
+				os = append(os, otlptracegrpc.WithGRPCConn(conn))
 			}
 		}
 		e, err := otlptracegrpc.New(ctx, os...)
@@ -274,7 +288,10 @@ func exportOnce(fam, proto string, opts []Opt, rawComp int) (newErr, expErr erro
 		expErr = e.ExportSpans(ctx, tracetest.SpanStubs{{Name: "x"}}.Snapshots())
 		e.Shutdown(ctx)
 	case "metric/http":
-		os := []otlpmetrichttp.Option{otlpmetrichttp.WithRetry(otlpmetrichttp.RetryConfig{Enabled: false})}
+		os := []otlpmetrichttp.Option{}
+		if !retry {
+			os = append(os, otlpmetrichttp.WithRetry(otlpmetrichttp.RetryConfig{Enabled: false}))
+		}
 		for _, o := range opts {
 			switch o.K {
 			case "endpoint":
@@ -307,7 +324,10 @@ func exportOnce(fam, proto string, opts []Opt, rawComp int) (newErr, expErr erro
 		expErr = e.Export(ctx, oneMetric())
 		e.Shutdown(ctx)
 	case "metric/grpc":
-		os := []otlpmetricgrpc.Option{otlpmetricgrpc.WithRetry(otlpmetricgrpc.RetryConfig{Enabled: false})}
+		os := []otlpmetricgrpc.Option{}
+		if !retry {
+			os = append(os, otlpmetricgrpc.WithRetry(otlpmetricgrpc.RetryConfig{Enabled: false}))
+		}
 		for _, o := range opts {
 			switch o.K {
 			case "endpoint":
@@ -322,6 +342,13 @@ func exportOnce(fam, proto string, opts []Opt, rawComp int) (newErr, expErr erro
 				os = append(os, otlpmetricgrpc.WithTimeout(time.Duration(o.D)))
 			case "insecure":
 				os = append(os, otlpmetricgrpc.WithInsecure())
+			case "grpcconn":
+				conn, err := grpc.NewClient(o.S, grpc.WithTransportCredentials(insecure.NewCredentials()))
+				if err != nil {
+					return err, nil
+				}
+				defer conn.Close()
+				os = append(os, otlpmetricgrpc.WithGRPCConn(conn))
 			}
 		}
 		e, err := otlpmetricgrpc.New(ctx, os...)
@@ -331,7 +358,10 @@ func exportOnce(fam, proto string, opts []Opt, rawComp int) (newErr, expErr erro
 		expErr = e.Export(ctx, oneMetric())
 		e.Shutdown(ctx)
 	case "log/http":
-		os := []otlploghttp.Option{otlploghttp.WithRetry(otlploghttp.RetryConfig{Enabled: false})}
+		os := []otlploghttp.Option{}
+		if !retry {
+			os = append(os, otlploghttp.WithRetry(otlploghttp.RetryConfig{Enabled: false}))
+		}
 		for _, o := range opts {
 			switch o.K {
 			case "endpoint":
@@ -364,7 +394,10 @@ func exportOnce(fam, proto string, opts []Opt, rawComp int) (newErr, expErr erro
 		expErr = e.Export(ctx, oneRecord())
 		e.Shutdown(ctx)
 	case "log/grpc":
-		os := []otlploggrpc.Option{otlploggrpc.WithRetry(otlploggrpc.RetryConfig{Enabled: false})}
+		os := []otlploggrpc.Option{}
+		if !retry {
+			os = append(os, otlploggrpc.WithRetry(otlploggrpc.RetryConfig{Enabled: false}))
+		}
 		for _, o := range opts {
 			switch o.K {
 			case "endpoint":
@@ -379,6 +412,13 @@ func exportOnce(fam, proto string, opts []Opt, rawComp int) (newErr, expErr erro
 				os = append(os, otlploggrpc.WithTimeout(time.Duration(o.D)))
 			case "insecure":
 				os = append(os, otlploggrpc.WithInsecure())
+			case "grpcconn":
+				conn, err := grpc.NewClient(o.S, grpc.WithTransportCredentials(insecure.NewCredentials()))
+				if err != nil {
+					return err, nil
+				}
+				defer conn.Close()
+				os = append(os, otlploggrpc.WithGRPCConn(conn))
 			}
 		}
 		e, err := otlploggrpc.New(ctx, os...)
